@@ -321,7 +321,7 @@ theorem tight_reopen {p : PState} (t : Tight p) (h : Rel p) (t1 t2 w' m' : Nat)
     (hw : ∀ x ∈ p.d.wals, x.1 < w') (hm : p.c.manifest ≠ m') (s3 : State)
     (hr : run p.s (reopenActions p.s t1 t2) = some s3) :
     Tight { s := s3, d := (opsOf p (.reopen t1 t2 w' m')).foldl apply p.d,
-            c := { manifest := m', wal := w', immWal := none } } := by
+            c := { manifest := m', wal := w', immWal := none, manWal := w' } } := by
   have R := reopen_lsm h.inv hr
   generalize htabs : newTables p.s t1 t2 = tabs at R
   have hwal_lt : p.c.wal < w' := by
@@ -336,7 +336,7 @@ theorem tight_reopen {p : PState} (t : Tight p) (h : Rel p) (t1 t2 w' m' : Nat)
                 Op.appendManifest m' { walNumber := none, added := levelPairs p.s.levels, deleted := [] },
                 Op.appendManifest m' { walNumber := some w', added := tabs.map fun (o : Nat × List Entry) => (0, o.1), deleted := [] },
                 Op.setCurrent m'] ++ rm ++ [Op.removeWal p.c.wal, Op.removeManifest p.c.manifest]).foldl apply p.d),
-              c := { manifest := m', wal := w', immWal := none } } := by
+              c := { manifest := m', wal := w', immWal := none, manWal := w' } } := by
     intro rm hrm
     rw [foldl_apply_append, foldl_apply_append, foldl_apply_append]
     generalize (ctOps tabs).foldl apply p.d = d1 at k1 kw1 km1
